@@ -133,6 +133,43 @@ func sequence(c *kit.Ctx, sc *scenario) *base {
 		extra["packagesAfterLastRun"] = pkgsIn(snaps[len(snaps)-1])
 	}
 	report(c, sc, caseName, f, extra)
+	// the same first run against an API server that caps the size of list pages (a client that
+	// asks for pages has to follow them all): the outcome is the one of the uncapped server
+	if b.ok && len(sc.Installed) > 0 {
+		for _, pc := range []int{1, 2} {
+			name := fmt.Sprintf("scn/%s/page-cap-%d", sc.Name, pc)
+			if !c.Want(name) {
+				continue
+			}
+			w2 := sc.world.Clone()
+			w2.PageCap = pc
+			var f2 findings
+			r := runInit(w2, sc.Cfg, -1, sim.OK)
+			c.Count("runs", 1)
+			c.Count("runs_page_capped", 1)
+			pages := 0
+			for _, e := range w2.Log(r.LogFrom) {
+				if e.Actor == "init" && e.Verb == "list" {
+					pages++
+				}
+			}
+			c.Count("page_capped_list_calls_observed", int64(pages))
+			switch {
+			case r.Panic != nil:
+				f2.add("init-panic:page-capped", "run against a page-capping server panicked: %v", r.Panic)
+			case r.Err != nil:
+				f2.add("init-error:page-capped:"+errKey(r.Err), "fault-free run against a page-capping server returned an error: %v", r.Err)
+			default:
+				s2 := snap(w2.Snapshot())
+				finalChecks(c, &f2, b, s2)
+				if kind, lines := diffSnaps(b.a1Masked, normalize(s2, true)); kind != "" {
+					f2.add("O1-page-capped-run-differs:"+kind, "store after a run against a server capping list pages at %d differs from the run against an uncapped one: %s", pc, strings.Join(lines, "; "))
+				}
+			}
+			c.Eval(fmt.Sprintf("%s|page-cap-%d", sc.Name, pc), true)
+			report(c, sc, name, f2, map[string]any{"pageCap": pc, "packagesBefore": pkgsIn(b.s0), "packagesAfter": pkgsIn(snap(w2.Snapshot()))})
+		}
+	}
 	if len(f) == 0 && c.WantSample() && len(b.s0) > 0 && len(sc.Installed) > 0 {
 		c.Sample(map[string]any{"case": caseName, "scenario": sc, "steps": steps,
 			"packages_before": pkgsIn(b.s0), "packages_after": pkgsIn(snaps[len(snaps)-1])})
@@ -257,6 +294,7 @@ func main() {
 	c.Rule += " " + "Migrator part: the six storage-version migrators alone over 2-6 Functions with the server's page size capped at 1-4, every call index x 7 outcomes (incl. 410 Gone on a continue token, 404, 409); the old version may leave status.storedVersions only after every object was rewritten."
 	c.Rule += " " + "A CA secret whose valid CA expires in 90 days; pre-installed packages under dotted and 74-character object names."
 	c.Rule += " " + "CA secrets holding only the certificate or only the key."
+	c.Rule += " " + "Scenarios with pre-installed packages are also run against a server that caps list pages at 1 and 2 objects; the result must be that of the uncapped server."
 	c.Assumptions = []string{
 		"sim implements the apiserver rules of DESIGN.md 2.2; it applies no defaulting, so defaulting-induced differences between run 1 and run n are not observable",
 		"no CRD of the current tree uses webhook conversion: half of the scenarios add one synthetic CRD (widgets.verif.example.org, strategy Webhook) to a temporary copy of VERIF_REPO_DIR/cluster/crds so that the CA injection of CoreCRDs runs",
